@@ -421,6 +421,12 @@ def run(tier, seed):
             if n % 4000 == 3:
                 run.sample(case)
             n += 1
+        # beyond the exhaustive bound: histories of 6 mutations (all one-step extensions of each visited 5-history)
+        sres, vals = engine.simulate_cases(work, "MC_C18", {"MaxMut": 6}, num=(4 if tier == "quick" else 150), depth=8, seed=seed + 1)
+        run.add_tlc(sres, "Alias histories of 6 mutations by TLC -simulate (%d behaviours)" % sres["behaviours"])
+        for case, r in engine.replay("harness.c18", [{"kind": v[1], "op": v[2], "hist": v[3]} for v in vals], chunk=100):
+            run.record(case, r, key=r["class"])
+        run.extra["simulated_histories_replayed"] = len(vals)
     finally:
         engine.cleanup(work)
     run.rule = ("cases = states of MC_C18: (kind, derivation, history of <= MaxMut public mutations on either side); non-trivial = every "
